@@ -57,11 +57,13 @@ pub trait Scenario: Sync {
 pub mod block_lockstep;
 pub mod bus_crash;
 pub mod cache_bank_history;
+pub mod joypad_events;
+pub mod lcd_batches;
 pub mod mbc_history;
 pub mod timer_batches;
 
 pub fn all() -> Vec<&'static dyn Scenario> {
-    vec![&timer_batches::TimerBatches, &block_lockstep::BlockLockstep, &bus_crash::BusCrash, &mbc_history::MbcHistory, &cache_bank_history::CacheBankHistory]
+    vec![&timer_batches::TimerBatches, &block_lockstep::BlockLockstep, &bus_crash::BusCrash, &mbc_history::MbcHistory, &cache_bank_history::CacheBankHistory, &joypad_events::JoypadEvents, &lcd_batches::LcdBatches]
 }
 
 pub fn by_name(name: &str) -> Option<&'static dyn Scenario> {
@@ -76,6 +78,8 @@ pub fn plan(property: &str) -> Vec<&'static str> {
         "C11" => vec!["bus_crash"],
         "C12" => vec!["mbc_history"],
         "C13" => vec!["timer_batches"],
+        "C14" => vec!["lcd_batches"],
+        "C17" => vec!["joypad_events"],
         _ => vec![],
     }
 }
